@@ -909,7 +909,8 @@ class XArr(np.ndarray):
     ikind = False
 
     def __array_finalize__(self, obj):
-        self.ikind = False
+        # views / reshapes / index copies keep the (integer) kind; results of arithmetic do not (see __array_wrap__)
+        self.ikind = bool(getattr(obj, "ikind", False))
 
     def __getitem__(self, key):
         if getattr(ctx(), "lazy_masks", False) and _symbolic_mask(key) and self.ndim == 1:
@@ -966,7 +967,9 @@ class XArr(np.ndarray):
     def __array_wrap__(self, arr, context=None, return_scalar=False):
         if arr.ndim == 0:
             return arr[()]
-        return arr.view(XArr)
+        out = arr.view(type(self))
+        out.ikind = False
+        return out
 
     @property
     def real(self):
@@ -1089,6 +1092,14 @@ class XNP:
 
     def maximum(self, a, b):
         return self._minmax(a, b, False)
+
+    def clip(self, a, lo, hi, **k):
+        x = a
+        if lo is not None:
+            x = self._minmax(x, lo, False)
+        if hi is not None:
+            x = self._minmax(x, hi, True)
+        return x
 
     def logical_and(self, a, b):
         a_, b_ = np.broadcast_arrays(np.asarray(a, dtype=object), np.asarray(b, dtype=object))
